@@ -72,6 +72,11 @@ pub fn iter_all<I: Iterator, F: FnMut(I::Item) -> bool>(it: &mut I, mut f: F) ->
 pub fn iter_find<I: Iterator, P: FnMut(&I::Item) -> bool>(it: &mut I, mut p: P) -> Option<I::Item> { while let Some(x) = it.next() { if p(&x) { return Some(x); } } None }
 pub fn iter_find_map<I: Iterator, B, F: FnMut(I::Item) -> Option<B>>(it: &mut I, mut f: F) -> Option<B> { while let Some(x) = it.next() { if let Some(b) = f(x) { return Some(b); } } None }
 pub fn iter_position<I: Iterator, P: FnMut(I::Item) -> bool>(it: &mut I, mut p: P) -> Option<usize> { let mut i = 0; while let Some(x) = it.next() { if p(x) { return Some(i); } i += 1; } None }
+pub fn iter_rposition<I: ExactSizeIterator + DoubleEndedIterator, P: FnMut(I::Item) -> bool>(it: &mut I, mut p: P) -> Option<usize> {
+    let mut i = it.len();
+    while let Some(x) = it.next_back() { i -= 1; if p(x) { return Some(i); } }
+    None
+}
 pub fn iter_nth<I: Iterator>(it: &mut I, mut n: usize) -> Option<I::Item> { while let Some(x) = it.next() { if n == 0 { return Some(x); } n -= 1; } None }
 // consumers taking the iterator by value
 pub fn iter_count<I: Iterator>(mut it: I) -> usize { let mut n = 0; while let Some(_) = it.next() { n += 1; } n }
